@@ -48,7 +48,8 @@ Print Assumptions C04_refused_gets_failure_ack.
 
 (* (3) histories — over ALL sequences of TunnelOpen packets (from any connections in any authentication state), mapping
    store changes (create / revoke / expire / delete), routing changes by other nodes, bridge closures and forward
-   completions, and routing polls of requests that arrived BEFORE their tunnel existed (EResolve / ETimeout), starting from
+   completions, routing polls of requests that arrived BEFORE their tunnel existed (EResolve / ETimeout) and the tunnelBridges polls of
+   requests waiting inside handleLocalBridgeWait for a bridge to APPEAR on this node (EWaitResolve), starting from
    a fresh session manager: a connection that a bridge holds (as source or target) or that
    is being forwarded to another node got there through one of its own TunnelOpen requests, and that request was
    entitled to the tunnel's mapping at the moment it was accepted *)
@@ -99,7 +100,7 @@ Proof. exact pinned_cross_node_refuted_remote. Qed.
 Print Assumptions C04_pinned_cross_node_refuted.
 
 Theorem C04_pinned_secret_path_refuted :
-  exists c, attaches (cell_open {| v_validate_first := true; v_secret_isvalid := false |} c) = true /\ cell_entitled c = false.
+  exists c, attaches (cell_open {| v_validate_first := true; v_secret_isvalid := false; v_wait_agree := true |} c) = true /\ cell_entitled c = false.
 Proof. exact pinned_secret_path_refuted. Qed.
 Print Assumptions C04_pinned_secret_path_refuted.
 
@@ -281,4 +282,25 @@ Theorem C04_client_id_guard_is_not_redundant :
             (negb (N.eqb (m_listen m) 0) && negb (N.eqb (m_target m) 0)) = false.
 Proof. exact client_id_guard_not_redundant. Qed.
 Print Assumptions C04_client_id_guard_is_not_redundant.
+
+(* (12) handleLocalBridgeWait — a request that the waiting-tunnel record sent to THIS node waits (up to 5 s) for a bridge to appear
+   under the tunnel id.  The bridge that appears need not be the one the record spoke about (the record may be stale or gone, the id
+   is client-chosen): the wait ends with a comparison of THAT bridge's mapping with the request's.  Part of (3): every history with
+   EWaitResolve steps.  Witnesses: with the comparison the waiting request (mapping 2) is dropped when mapping 1's bridge appears and
+   attached when mapping 2's own bridge appears; without it, it is wired into mapping 1's bridge. *)
+Theorem C04_local_wait_revalidates :
+  (let s := run current ex_cfg (init ex_db2 stale_rt) ex_wait_other in
+   s_wait (run current ex_cfg (init ex_db2 stale_rt) (firstn 3 ex_wait_other)) <> [] /\
+   s_tun s 9 = Some {| b_mid := 1; b_src := Some 2000; b_tgt := None |} /\ s_log s = [(2000, 9, true)] /\ s_wait s = []) /\
+  (let s := run current ex_cfg (init ex_db2 stale_rt) ex_wait_ok in
+   s_tun s 9 = Some {| b_mid := 2; b_src := Some 2000; b_tgt := Some 2001 |} /\ s_log s = [(2001, 9, true); (2000, 9, true)]).
+Proof. exact local_wait_revalidates. Qed.
+Print Assumptions C04_local_wait_revalidates.
+
+Theorem C04_local_wait_without_recheck_refuted :
+  let v := {| v_validate_first := true; v_secret_isvalid := true; v_wait_agree := false |} in
+  let s := run v ex_cfg (init ex_db2 stale_rt) ex_wait_other in
+  holds s 2001 9 /\ s_tun s 9 = Some {| b_mid := 1; b_src := Some 2000; b_tgt := Some 2001 |} /\ In (2001, 9, false) (s_log s).
+Proof. exact local_wait_without_recheck_refuted. Qed.
+Print Assumptions C04_local_wait_without_recheck_refuted.
 Close Scope N_scope.
